@@ -52,6 +52,7 @@ func init() {
 		Rules: func(c *Ctx) {
 			ruleInject(c, "C04.INJECT")
 			ruleFkWiring(c, "C04.WIRING")
+			ruleEmptyRef(c, "C04.EMPTYREF")
 			ruleFkExists(c, "C04.EXISTS")
 			ruleOwnPresence(c, "C04.PRESENT")
 			ruleOldFirst(c, "C04.OLDFIRST", []string{"fkIndex"})
